@@ -238,7 +238,7 @@ HELPERS = [
                         sent_one(*old(self), *final(self), reply_frame(*hdr, VhostUserConfig { offset: config_of(buf@).offset, size: 0, flags: config_of(buf@).flags }, Seq::<u8>::empty(), Seq::<int>::empty()))
                     },
                 _ => sent_one(*old(self), *final(self), reply_frame(*hdr, VhostUserConfig { offset: config_of(buf@).offset, size: 0, flags: config_of(buf@).flags }, Seq::<u8>::empty(), Seq::<int>::empty())),
-            })), // [C03,C04]""")),
+            })), // [C03,C04,C01]""")),
     ("set_config", dict(contract="""
         requires buf@.len() == size
         ensures
@@ -369,7 +369,7 @@ def arm_contract_value(code, gate, valid, call, okpat, frame, neg):
             (%(gate)s && %(valid)s) ==> (final(self).main_sock.io_failed@ || match final(self).backend.rets@.last() {
                 %(okpat)s => r is Ok && sent_one(*old(self), *final(self), %(frame)s),
                 _ => r is Err && sent_nothing(*old(self), *final(self)),
-            }), // [C03,C04]
+            }), // [C03,C04,C01]
 """ % dict(code=code, gate=gate, valid=valid, call=call, okpat=okpat, frame=frame, same=NEG_SAME)
 
 
@@ -385,7 +385,7 @@ CUSTOM_ARMS = {
                     && final(self).virtio_features == v && final(self).acked_virtio_features == old(self).acked_virtio_features
                     && final(self).acked_protocol_features == old(self).acked_protocol_features,
                 _ => r is Err && sent_nothing(*old(self), *final(self)) && %(same)s,
-            }), // [C03,C04,C07]
+            }), // [C03,C04,C07,C01]
 """ % dict(SZ0=SZ0, same=NEG_SAME),
     "GET_PROTOCOL_FEATURES": """
         requires arm_pre(*old(self), hdr, size, buf@, files), hdr.request == 15, buf@.len() == size
@@ -396,7 +396,7 @@ CUSTOM_ARMS = {
             %(SZ0)s ==> (final(self).main_sock.io_failed@ || match final(self).backend.rets@.last() {
                 Ret::U64(v) => r is Ok && sent_one(*old(self), *final(self), reply_frame(hdr, VhostUserU64 { value: v | 8 }, Seq::<u8>::empty(), Seq::<int>::empty())), // REPLY_ACK always offered
                 _ => r is Err && sent_nothing(*old(self), *final(self)),
-            }), // [C03,C04,C07]
+            }), // [C03,C04,C07,C01]
 """ % dict(SZ0=SZ0, same=NEG_SAME),
     "GET_CONFIG": """
         requires arm_pre(*old(self), hdr, size, buf@, files), hdr.request == 24, buf@.len() == size
@@ -412,7 +412,7 @@ CUSTOM_ARMS = {
                         sent_one(*old(self), *final(self), reply_frame(hdr, VhostUserConfig { offset: config_of(buf@).offset, size: 0, flags: config_of(buf@).flags }, Seq::<u8>::empty(), Seq::<int>::empty()))
                     },
                 _ => sent_one(*old(self), *final(self), reply_frame(hdr, VhostUserConfig { offset: config_of(buf@).offset, size: 0, flags: config_of(buf@).flags }, Seq::<u8>::empty(), Seq::<int>::empty())),
-            })), // [C03,C04]
+            })), // [C03,C04,C01]
 """ % dict(gate=PF(9), same=NEG_SAME),
     "SET_BACKEND_REQ_FD": """
         requires arm_pre(*old(self), hdr, size, buf@, files), hdr.request == 21, buf@.len() == size
@@ -434,7 +434,7 @@ CUSTOM_ARMS = {
             (%(gate)s && %(valid)s) ==> (final(self).main_sock.io_failed@ || (r is Ok && match final(self).backend.rets@.last() {
                 Ret::FileId(fd) => sent_one(*old(self), *final(self), reply_frame(hdr, VhostUserEmpty, Seq::<u8>::empty(), seq![fd])),
                 _ => sent_one(*old(self), *final(self), reply_frame(hdr, VhostUserEmpty, Seq::<u8>::empty(), Seq::<int>::empty())),
-            })), // [C03,C04]
+            })), // [C03,C04,C01]
 """ % dict(gate=PF(18), same=NEG_SAME, valid=body_ok("VhostUserSharedMsg"), msg=dec("VhostUserSharedMsg")),
     "SET_DEVICE_STATE_FD": """
         requires arm_pre(*old(self), hdr, size, buf@, files), hdr.request == 42, buf@.len() == size
@@ -446,7 +446,7 @@ CUSTOM_ARMS = {
                 Ret::OptFile(None) => sent_one(*old(self), *final(self), reply_frame(hdr, VhostUserU64 { value: 0x100 }, Seq::<u8>::empty(), Seq::<int>::empty())),
                 Ret::OptFile(Some(fd)) => sent_one(*old(self), *final(self), reply_frame(hdr, VhostUserU64 { value: 0 }, Seq::<u8>::empty(), seq![fd])),
                 _ => sent_one(*old(self), *final(self), reply_frame(hdr, VhostUserU64 { value: 0x101 }, Seq::<u8>::empty(), Seq::<int>::empty())),
-            })), // [C03,C04]
+            })), // [C03,C04,C01]
 """ % dict(same=NEG_SAME, one=ONE_FILE, valid=body_ok("VhostUserTransferDeviceState"), msg=dec("VhostUserTransferDeviceState"), f0=F0),
     "CHECK_DEVICE_STATE": """
         requires arm_pre(*old(self), hdr, size, buf@, files), hdr.request == 43, buf@.len() == size
@@ -454,7 +454,7 @@ CUSTOM_ARMS = {
             rx_same(*old(self), *final(self)), srv_inv(*final(self)), %(same)s, // [C04]
             called(*old(self), *final(self), Call::CheckDeviceState), // [C02]
             final(self).main_sock.io_failed@ || (r is Ok && sent_one(*old(self), *final(self),
-                reply_frame(hdr, VhostUserU64 { value: if ret_ok(*final(self)) { 0u64 } else { 1u64 } }, Seq::<u8>::empty(), Seq::<int>::empty()))), // [C03,C04]
+                reply_frame(hdr, VhostUserU64 { value: if ret_ok(*final(self)) { 0u64 } else { 1u64 } }, Seq::<u8>::empty(), Seq::<int>::empty()))), // [C03,C04,C01]
 """ % dict(same=NEG_SAME),
     "_": """
         requires arm_pre(*old(self), hdr, size, buf@, files)
